@@ -36,7 +36,7 @@ SPEC_OF = {
     "gate_header_field": "spec_header_field",
     "gate_request_line": "spec_request_line",
 }
-PYWS = b" \t\n\r\x0b\x0c"
+PYWS = b" \t\r\x0b\x0c"  # stripped around the request line (no LF since fix 31e2659)
 
 
 def gate_info():
